@@ -1,5 +1,6 @@
 import Drv.Stat
 import FsutilModel.Model.FollowLinks
+import FsutilModel.Lemmas.C18Fuel
 open Lean Fsm Fsm.FL
 
 namespace Drv
@@ -24,6 +25,8 @@ def hFollow (j : Json) : Except String Json := do
                   ("spec_nomid", toJson (specFollow l nomid (followLinks Fix.f4 l nomid fuel)).ok),
                   ("midwild", toJson (paths.any middleWildcard)),
                   ("metalink", toJson (metaLink l)),
+                  -- premise of C18.model_run_is_the_unbounded_run: the fuel of this run did not run out
+                  ("fuel_ok", toJson (!(resolveAllX l fuel paths).2)),
                   ("spec_lit", toJson ([(false, false), (true, false), (false, true)].any fun (k, s) =>
                       (specFollow l paths (followLinksLit Fix.f4 l paths (4 * fuel) k s)).ok)),
                   ("spec_lit_nomid", toJson ([(false, false), (true, false), (false, true)].any fun (k, s) =>
